@@ -20,7 +20,7 @@ use std::sync::atomic::Ordering::Relaxed;
 #[cfg(not(multiqueue2_verif))]
 use std::thread::yield_now;
 
-use crate::countedindex::{past, rm_tag};
+use crate::countedindex::{is_tagged, past, rm_tag};
 #[cfg(multiqueue2_verif)]
 use crate::verif_hooks::parking_lot;
 #[cfg(not(multiqueue2_verif))]
@@ -37,8 +37,11 @@ pub fn load_tagless(val: &AtomicUsize) -> usize {
 
 #[inline(always)]
 pub fn check(seq: usize, at: &AtomicUsize, wc: &AtomicUsize) -> bool {
-    let cur_count = load_tagless(at);
-    wc.load(Relaxed) == 0 || seq == cur_count || past(seq, cur_count).1
+    // A slot that was never written still carries the tagged initial flag: it is not
+    // "past" anything, the writer simply has not got there yet.
+    let raw = at.load(Relaxed);
+    let cur_count = rm_tag(raw);
+    wc.load(Relaxed) == 0 || seq == cur_count || (!is_tagged(raw) && past(seq, cur_count).1)
 
     // if wc.load(Relaxed) == 0 || seq == cur_count || past(seq, cur_count).1 {
     //     true
